@@ -157,7 +157,12 @@ class LLOneParser:
         for production in nullable_productions:
             if production.head not in llone_parsing_table:
                 llone_parsing_table[production.head] = {}
-            for first in follow_set.get(production.head, set()):
+            firsts = set(follow_set.get(production.head, set()))
+            for first in self._get_first_set_production(production,
+                                                        first_set):
+                if first != Epsilon():
+                    firsts.add(first)
+            for first in firsts:
                 if first not in llone_parsing_table[production.head]:
                     llone_parsing_table[production.head][first] = []
                 llone_parsing_table[production.head][first].append(
@@ -218,8 +223,10 @@ class LLOneParser:
         stack = ["$", parse_tree]
         while stack:
             current = stack.pop()
-            if current == "$" and word[-1] == "$":
-                return parse_tree
+            if current == "$":
+                if word[-1] == "$":
+                    return parse_tree
+                raise NotParsableException
             if current.value == word[-1]:
                 word.pop()
             else:
